@@ -10,12 +10,7 @@ CORPUS = os.path.join(lib.VERIF, "corpus")
 
 
 def hide_help(d):
-    """until Help is modelled byte-exactly inside ParseArgs, ErrHelp is compared by type only"""
-    d = dict(d)
-    if d.get("err", "").startswith("F:5:"):
-        d["err"] = "F:5:"
-        if "out" in d:
-            d["out"] = "1:" if d["out"].startswith("1:") else d["out"]
+    """identity since WriteHelp is modelled byte-exactly (kept as the default projection hook)"""
     return d
 
 
